@@ -148,8 +148,8 @@ func runC10(tier string, seed uint64) {
 	if tier == "thorough" {
 		nseq, length = 60, 60
 	}
-	for _, kindSpec := range append(append([]string{}, allKinds...), "mem+hostbase") {
-		kind := strings.TrimSuffix(kindSpec, "+hostbase")
+	for _, kindSpec := range append(append([]string{}, allKinds...), "mem+hostbase", "bolt+hostbucket") {
+		kind := strings.TrimSuffix(strings.TrimSuffix(kindSpec, "+hostbase"), "+hostbucket")
 		buckets := []string{singleBucketName, "bkb", "bkc"}
 		probe := append([]string{}, buckets...)
 		probe = append(probe, "_meta", ".", "metadata", "buckets", "bkc2", "bkc.x")
@@ -159,11 +159,18 @@ func runC10(tier string, seed uint64) {
 		modelled := kind == "mem" || kind == "bolt"
 		for i := 0; i < nseq; i++ {
 			s := newSess("c10", kind, SessOpts{})
-			if kindSpec != kind {
+			if strings.HasSuffix(kindSpec, "+hostbase") {
 				// the same histories addressed host-style through a host-bucket-base server
 				s.h = hostStyle{inner: newServer(s.st.Backend, gofakes3.WithHostBucketBase("s3.example.com")), base: "s3.example.com"}
 			}
-			if !modelled {
+			if strings.HasSuffix(kindSpec, "+hostbucket") {
+				// ... and through a plain host-bucket server (the first label of any host is the bucket; keys
+				// whose first segment is the name of their bucket are keys like any other)
+				s.h = hostStyle{inner: newServer(s.st.Backend, gofakes3.WithHostBucket(true)), base: "s3.example.com"}
+			}
+			if !modelled || strings.HasSuffix(kindSpec, "+hostbucket") {
+				// (a plain host-bucket server has no path-style fallback: names that are no host label — bkc.x, _meta,
+				// "." — address nothing there, which the model does not know; the frame oracle carries this variant)
 				emit("c10", "NOMODEL")
 			}
 			preludeKeys := map[string][]string{}
@@ -283,6 +290,10 @@ func runC10(tier string, seed uint64) {
 				if j == len(c10Scratch)+2 {
 					// ... and deletes a key below the zero-byte object "a" (never written; nothing may happen to "a")
 					b, w, k = buckets[0], 40, "a/b"
+				}
+				if j == len(c10Scratch)+3 {
+					// ... and uploads a key whose first segment is the name of its own bucket
+					b, w, k = buckets[0], 0, buckets[0]+"/x"
 				}
 				if j < len(c10Scratch)+2 {
 					// every history opens by storing the names a careless backend might use for the scratch copy of
